@@ -101,6 +101,11 @@ pub struct Spec {
     /// another thread
     #[serde(default)]
     pub ctx: u8,
+    /// process history: a real-clock `JitterRng::new()` (std feature: it runs the timer test on the
+    /// platform clock and fills the process-wide round-count cache) is made and dropped before the
+    /// run's own generator is built; nothing it returns is logged or compared
+    #[serde(default)]
+    pub pre_new: bool,
 }
 
 #[derive(Clone, Debug, PartialEq)]
